@@ -512,7 +512,8 @@ class C10(Property):
     ID = "C10"
     SHAPE = [(S + "features/feature.py", q) for q in ("Feature.to_biopython", "Feature.from_biopython", "Feature.__lt__")] + [
         (S + "locations.py", q) for q in ("_adjust_location_by_offset", "frameshift_location_by_qualifier",
-                                          "location_from_string", "connect_locations")] + [
+                                          "location_from_string", "connect_locations", "location_bridges_origin",
+                                          "remove_redundant_exons")] + [
         (S + "features/cdscollection.py", q) for q in ("CDSCollection.to_biopython", "CDSCollection.from_biopython",
                                                        "CDSCollection.contig_edge", "CDSCollection.__lt__",
                                                        "CDSCollection.__contains__", "CDSCollection.crosses_origin")] + [
@@ -710,6 +711,22 @@ class C10(Property):
                 mloc["op"] = rng.choice(["order", "join"])
             case["input"].append({"type": rng.choice(["misc_feature", "regulatory", "misc_feature"]),
                                   "loc": mloc, "quals": quals})
+        if circ and n >= 120:
+            # features across the origin that are not genes, on either strand, two or three exons, as parsed from
+            # join(1941..2000,1..150) / complement(join(1941..2000,1..150)): exons in transcription order
+            for _ in range(rng.choice([0, 0, 1, 1, 2])):
+                strand = rng.choice([1, -1])
+                a, b = rng.choice([3, 7, 12]), rng.choice([3, 8, 15])
+                parts = [[n - a, n, strand], [0, b, strand]]
+                if rng.random() < 0.4:
+                    parts = [[n - a - 9, n - a - 4, strand]] + parts if rng.random() < 0.5 else parts + [[b + 4, b + 9, strand]]
+                if strand == -1:
+                    parts.reverse()
+                kind = rng.choice(["misc_feature", "misc_feature", "regulatory"])
+                if rng.random() < 0.6 and "taxon" not in case:
+                    case["input"].append({"type": kind, "loc": compound(parts), "quals": [["note", ["across the origin"]]]})
+                else:
+                    case["generics"].append({"type": kind, "loc": compound(parts), "notes": ["made by antiSMASH across the origin"]})
         rng.shuffle(case["input"])
         # ---- annotations added by the pipeline
         for name, total, gloc in names:
